@@ -68,7 +68,8 @@ HasOwnContext(h) == (\E i \in DOMAIN h.before : ~IsVoid(h.before[i])) \/ (\E j \
 IsAppend(h) == h.path # <<>> /\ h.path[Len(h.path)] = PIdx(-1)
 
 Coalesce(out, e) ==
-  IF out # <<>> /\ out[Len(out)].path = e.path /\ ~HasOwnContext(e) THEN
+  \* a removal after an addition starts a new hunk: RFC 6902 applies operations in sequence, so it removes what was just added
+  IF out # <<>> /\ out[Len(out)].path = e.path /\ ~HasOwnContext(e) /\ ~(e.remove # <<>> /\ out[Len(out)].add # <<>>) THEN
        LET last == out[Len(out)]
            merged == [last EXCEPT !.remove = last.remove \o e.remove,
                                   !.add = IF IsAppend(e) THEN last.add \o e.add ELSE e.add \o last.add]
